@@ -647,7 +647,10 @@ class Ctx:
         return self.draw(st.integers(lo, hi))
 
     def one(self, xs: Sequence[Any]) -> Any:
-        return self.draw(st.sampled_from(list(xs)))
+        # a wide integer modulo n: spreads the choices more evenly over a few hundred examples than
+        # sampled_from, whose generation heuristics favour the first entries
+        xs = list(xs)
+        return xs[self.draw(st.integers(0, (1 << 24) - 1)) % len(xs)]
 
     def coin(self, num: int = 1, den: int = 2) -> bool:
         return self.draw(st.integers(0, den - 1)) < num
